@@ -32,3 +32,14 @@ Definition mk_cred (a b c d e f : bool) : cred :=
   {| c_present := a; c_jwt := b; c_iss := c; c_device := d; c_fresh := e; c_slave_key := f |}.
 Definition bad_events_spec (cs : list evcase) : list nat :=
   mismatches (fun x : evcase => let '(s, c, o) := x in events_spec_ok s c o) cs 0.
+
+(* requests under a password configuration (stubbed bodies): (URL shape, method, present, valid, admin_empty, level of
+   the token's user, observed) *)
+Definition acase := (string * meth * bool * bool * bool * Z * obs)%type.
+Definition bad_auth_spec (cs : list acase) : list nat :=
+  mismatches (fun x : acase => let '(t, m, p, v, a, tl, o) := x in spec_ok 0 t m (grant_spec p v a tl) true o) cs 0.
+
+(* histories on the un-stubbed /device functions, from the factory state (all passwords empty) *)
+Definition hcase := (list hstep * list hprobe)%type.
+Definition bad_hist_spec (hs : list hcase) : list nat :=
+  mismatches (fun h : hcase => hist_spec_ok pw_init (fst h) (snd h)) hs 0.
